@@ -172,6 +172,24 @@ def _run(a, pid, tier, seed, t0):
     tmp = lib.new_run_dir('exec')
     try:
         traces = driver.run_batch(programs, jobs=a.jobs, tmp=tmp)
+        # the same scenarios once more in *warm* processes: a seed-dependent sample of the single-process programs, shuffled, in
+        # groups that share one process each - what the library keeps between files (caches, class-level state) is inherited
+        if not a.replay:
+            import copy
+            import random
+            wrng = random.Random(f'warm-{pid}-{tier}-{seed}')
+            single = [p for p in programs if not p.get('procs') and not p.get('tz') and p.get('meta', {}).get('kind') not in ('repofixture',)
+                      and not any(st.get('op') == 'script' for st in p.get('steps', []))]
+            sample = wrng.sample(single, min(len(single), 60 if tier == 'quick' else 600))
+            warm = []
+            for p in sample:
+                q = copy.deepcopy(p)
+                q['id'] = p['id'] + '#warm'
+                q.setdefault('meta', {})['warm'] = True
+                warm.append(q)
+            if warm:
+                traces = traces + driver.run_warm(warm, group=20, jobs=a.jobs, tmp=tmp)
+                programs = programs + warm
     finally:
         lib.rm_run_dir(tmp)
     bad = [t for t in traces if 'machinery_error' in t]
